@@ -416,6 +416,71 @@ class Interp:
         self.ctx.nontrivial = True
         await self.final_flush_check()
         await self.check_hit_oracles()
+        if self.prog.get("ns_quiescent"):
+            await self.check_namespace_quiescent()
+
+    async def check_namespace_quiescent(self):
+        """C17 under concurrency: whatever the interleaving of CREATE/DELETE/RENAME from several sessions, once everything
+        is answered the two sources of truth agree - LIST shows exactly the folders that exist on disk (a name listed
+        once), no temporary symlink is left, every listed mailbox that is not \\Noselect can be selected - and an
+        orderly restart changes nothing."""
+        if self.obs is None or self.obs.lost:
+            self.obs = self.connect("obs", "10.0.0.9")
+        await asyncio.sleep(8.0)  # (the idle poll / folder scan)
+        self.C("c17_ns_quiescent")
+
+        async def listed():
+            r = await self.obs.command('LIST "" "*"')
+            out = {}
+            dup = []
+            for n, attrs in self.parse_list(r):
+                k = "inbox" if n.upper() == "INBOX" else n
+                if k in out:
+                    dup.append(k)
+                out[k] = set(attrs)
+            return out, dup
+
+        def on_disk():
+            dirs, links = set(), []
+            for root, ds, files in os.walk(self.maildir):
+                ds.sort()
+                for d_ in list(ds):
+                    p_ = os.path.join(root, d_)
+                    rel = os.path.relpath(p_, self.maildir)
+                    if os.path.islink(p_):
+                        links.append(rel)
+                    else:
+                        dirs.add(rel)
+            return dirs, links
+
+        got, dup = await listed()
+        dirs, links = on_disk()
+        detail = {"ops": [f"{o.get('s')}:{o.get('op')}" for o in self.prog.get("ops", [])][:12]}
+        if dup:
+            self.V("C17", "concurrent_namespace_inconsistent", what="listed twice", names=sorted(dup)[:6], **detail)
+        if links:
+            self.V("C17", "concurrent_namespace_inconsistent", what="symlink left in the mail directory", names=links[:6], **detail)
+        missing = sorted(d_ for d_ in dirs if d_ not in got)
+        extra = sorted(n for n in got if n not in dirs)
+        if missing or extra:
+            self.V("C17", "concurrent_namespace_inconsistent", what="LIST and the folders on disk differ", on_disk_not_listed=missing[:6], listed_not_on_disk=extra[:6], **detail)
+        for n, attrs in sorted(got.items()):
+            if "\\noselect" in attrs or n not in dirs:
+                continue
+            e = await self.obs.command(f"EXAMINE {quote('INBOX' if n == 'inbox' else n)}")
+            if not e.ok:
+                self.V("C17", "concurrent_namespace_inconsistent", what="listed mailbox can not be selected", names=[n], reply=e.brief(), **detail)
+                break
+            await self.obs.command("UNSELECT")
+        before = {n: sorted(a & {"\\noselect", "\\haschildren", "\\hasnochildren"}) for n, a in got.items()}
+        await self.op_restart({"actor": "life", "op": "restart", "kind": "cancel", "compare": False})
+        if self.ended:
+            return
+        got2, _ = await listed()
+        after = {n: sorted(a & {"\\noselect", "\\haschildren", "\\hasnochildren"}) for n, a in got2.items()}
+        if {n for n in after if n not in SPECIAL_USE} != {n for n in before if n not in SPECIAL_USE}:
+            self.V("C17", "concurrent_namespace_inconsistent", what="the mailbox list changed through an orderly restart",
+                   appeared=sorted(set(after) - set(before))[:6], lost=sorted(set(before) - set(after))[:6], **detail)
 
     async def final_flush_check(self):
         """Concurrent mode epilogue: at quiescence every selected session is
@@ -635,6 +700,8 @@ class Interp:
 
     def check_uid_codes(self, box, uvv, uidnext, where):
         """C02 clauses on UIDVALIDITY / UIDNEXT wherever they are revealed."""
+        if self.prog.get("ns_quiescent"):
+            return  # namespace commands race each other: the model's boxes are not the server's mailboxes
         if uvv is not None:
             self.C("c02_uidvalidity")
             if box.uvv is None:
@@ -1160,6 +1227,8 @@ class Interp:
         lit = b"{%d%s}\r\n" % (len(data), b"+" if op.get("nonsync") else b"")
         r = await self.run_cmd(sess, ms, head + lit + data, verb="APPEND")
         if r.status is None:
+            return
+        if self.prog.get("ns_quiescent"):
             return
         if box is None or box.noselect:
             self.C("c05_append_missing")
